@@ -1,9 +1,37 @@
 (* C03 — confidence fields obey the documented arithmetic contract. *)
 From Coq Require Import ZArith List Bool.
-From CTM Require Import Base.Sx Model.Vote Model.Election Proofs.VoteP Proofs.VoteMainP Proofs.ConfidenceP.
+From Coq Require Import Permutation Sorted.
+From CTM Require Import Base.Sx Model.Tree Model.Vote Model.Election Proofs.VoteP Proofs.VoteMainP Proofs.ConfidenceP
+     Proofs.ChooseP Proofs.ElectionP Proofs.RtaShapeP.
 Import ListNotations.
 Open Scope Z_scope.
 
+(* The arithmetic contract of choose_node, for EVERY tie order of the sort (any permutation
+   of the children with non-increasing votes), every vote function with `iters` votes in
+   total and every requested number of assignments >= 1 (zero runners-up and more
+   runners-up than siblings included): *)
+Theorem c03_choose_node_contract :
+  forall (vf : Z -> nat) kids order (n_assign iters : nat) w wv rs,
+  NoDup kids -> Permutation order kids -> StronglySorted (fun a b => (b <= a)%nat) (map vf order) ->
+  (1 <= n_assign)%nat -> nsum (map vf kids) = iters -> (1 <= iters)%nat ->
+  choose_with order vf n_assign = Some (w, wv, rs) ->
+  (* winner: a child with the most votes; its share wv/iters is a whole number of votes in (0,1] *)
+  In w kids /\ vf w = wv /\ (forall c, In c kids -> (vf c <= wv)%nat) /\ (1 <= wv <= iters)%nat /\
+  (* runners-up: at most n_assign-1, distinct siblings other than the winner, strictly
+     positive votes none larger than the winner's, non-increasing, the top vote getters *)
+  (length rs <= n_assign - 1)%nat /\ NoDup (map fst rs) /\ ~ In w (map fst rs) /\
+  (forall r, In r rs -> In (fst r) kids /\ (0 < snd r <= wv)%nat /\ vf (fst r) = snd r) /\
+  sorted_desc (map snd rs) = true /\
+  (forall c, In c kids -> In c (w :: map fst rs) \/ (vf c <= last (map snd rs) wv)%nat) /\
+  (* shares sum to at most 1 -- and to exactly 1 when every vote getter could be listed *)
+  (wv + nsum (map snd rs) <= iters)%nat /\
+  ((count (fun c => negb (c =? w)%Z && Nat.ltb 0 (vf c)) kids <= n_assign - 1)%nat ->
+   (wv + nsum (map snd rs))%nat = iters).
+Proof. exact choose_contract. Qed.
+Print Assumptions c03_choose_node_contract.
+
+(* the same clauses for any outcome the acceptor accepts (this is what is evaluated on the
+   records the real code reports) *)
 (* the bootstrapping probability is a whole number of votes in (0, iterations] *)
 Theorem c03_probability_range : forall kids vf n_assign w wv rs iters,
   check_choice kids vf n_assign w wv rs = true ->
@@ -29,33 +57,62 @@ Theorem c03_sum_at_most_one : forall kids vf n_assign w wv rs iters,
 Proof. intros kids vf na w wv rs iters H1 H2. exact (sum_at_most_one kids vf na w wv rs iters H1 H2). Qed.
 Print Assumptions c03_sum_at_most_one.
 
+Theorem c03_sum_exactly_one : forall kids vf n_assign w wv rs,
+  check_choice kids vf n_assign w wv rs = true -> NoDup kids ->
+  (count (fun c => negb (c =? w)%Z && Nat.ltb 0 (vf c)) kids <= n_assign - 1)%nat ->
+  (wv + nsum (map snd rs))%nat = nsum (map vf kids).
+Proof. exact sum_exactly. Qed.
+Print Assumptions c03_sum_exactly_one.
+
 (* correlations lie in [-1,1]: covariance squared is at most the product of the variances *)
 Theorem c03_corr_range : forall q r, length q = length r ->
   ccov q r * ccov q r <= ccov q q * ccov r r.
 Proof. exact corr_in_range. Qed.
 Print Assumptions c03_corr_range.
 
-(* the aggregate probability is the running product of the per-level probabilities, and the
-   last pass changes nothing else *)
-Theorem c03_aggregate_is_running_product : forall acc rs,
-  map agg (running acc rs) = products acc (map prob rs).
-Proof. exact running_is_product. Qed.
+(* At the level of run_type_assignment, for every decision procedure and every valid taxonomy:
+   the aggregate probability of every row is the running product, from the top, of the
+   per-level bootstrapping probabilities *)
+Theorem c03_aggregate_is_running_product :
+  forall (cell rng : Type)
+         (decide : rng -> option (nat * node) -> list node -> list cell -> list rec * rng)
+         t cells g rows g',
+    run_type_assignment cell rng decide t cells g = Ok (rows, g') ->
+    Forall (fun row => map agg row = products one (map prob row)) rows.
+Proof. exact rta_aggregate. Qed.
 Print Assumptions c03_aggregate_is_running_product.
 
-(* a level where no vote was held (single child) inherits the correlation of the nearest level
-   above where one was held (1 at the top of the taxonomy); everything else is untouched *)
-Theorem c03_single_child_correlation : forall above row rs,
-  inherit above row = Ok rs ->
-  exists recs, row = map Some recs /\
-    map corr rs = map Some (inherited (match above with Some a => a | None => one end) (map corr recs)) /\
-    map asg rs = map asg recs /\ map prob rs = map prob recs /\ map runners rs = map runners recs.
-Proof. exact inherit_corr. Qed.
-Print Assumptions c03_single_child_correlation.
+(* ... and a level below a parent with a single child (no vote is held there) carries that
+   child, probability 1, no runners-up and the correlation of the level above -- hence, by
+   induction up a single-child chain, of the nearest level where a real choice was made;
+   a single node at the top of the taxonomy gets correlation 1 *)
+Theorem c03_single_child :
+  forall (cell rng : Type)
+         (decide : rng -> option (nat * node) -> list node -> list cell -> list rec * rng),
+    (forall g p kids cs, (2 <= length kids)%nat -> Forall (fun r => In (asg r) kids) (fst (decide g p kids cs))) ->
+    forall t cells g rows g',
+      tree_ok t ->
+      run_type_assignment cell rng decide t cells g = Ok (rows, g') ->
+      forall i row, nth_error rows i = Some row ->
+        (forall only r, nodes (hd [] t) = [only] -> nth_error row 0 = Some r ->
+           asg r = only /\ prob r = one /\ runners r = [] /\ corr r = Some one) /\
+        (forall k a b only, nth_error row k = Some a -> nth_error row (S k) = Some b ->
+           children_of (nth k t []) (asg a) = [only] ->
+           asg b = only /\ prob b = one /\ runners b = [] /\ corr b = corr a).
+Proof. exact rta_single_child. Qed.
+Print Assumptions c03_single_child.
 
-Theorem c03_single_child_record : forall c, asg (trivial_rec c) = c /\ prob (trivial_rec c) = one /\
-  corr (trivial_rec c) = None /\ runners (trivial_rec c) = [].
-Proof. exact trivial_rec_spec. Qed.
-Print Assumptions c03_single_child_record.
+(* non-vacuity: the 3-level taxonomy of C01 with a single top node and a single-child chain *)
+Example c03_single_child_example :
+  match run_type_assignment Z nat ends_decide
+          [ [(1, [10; 11])]; [(10, [100]); (11, [110; 111])]; [(100, []); (110, []); (111, [])] ] [5; 6] 0%nat with
+  | Ok (rows, _) =>
+      map (map (fun r => (asg r, prob r, corr r, agg r))) rows =
+      [ [(1, (1, 1), Some (1, 1), (1, 1)); (11, (3, 4), Some (1, 2), (3, 4)); (111, (3, 4), Some (1, 2), (9, 16))];
+        [(1, (1, 1), Some (1, 1), (1, 1)); (10, (3, 4), Some (1, 2), (3, 4)); (100, (1, 1), Some (1, 2), (3, 4))] ]
+  | _ => False
+  end.
+Proof. vm_compute. reflexivity. Qed.
 
 Example c03_example :
   check_choice [1; 2; 3] (fun c => if (c =? 1)%Z then 5%nat else if (c =? 2)%Z then 3%nat else 2%nat) 3 1 5 [(2, 3%nat); (3, 2%nat)] = true /\
